@@ -187,7 +187,7 @@ func (obj Object) CompletionAtPos(ctx context.Context, pos hcl.Pos) []lang.Candi
 	})
 
 	// parenthesis implies interpolated attribute name
-	if trimmedBytes[len(trimmedBytes)-1] == '(' && obj.cons.AllowInterpolatedKeys {
+	if len(trimmedBytes) > 0 && trimmedBytes[len(trimmedBytes)-1] == '(' && obj.cons.AllowInterpolatedKeys {
 		emptyExpr := newEmptyExpressionAtPos(eType.Range().Filename, pos)
 		attrNameCons := schema.AnyExpression{
 			OfType: cty.String,
